@@ -249,6 +249,7 @@ def base_cfg(rng, nhosts=None, fail=None, lat=None):
         "fail": fail, "repair": rng.choice([0.0, 0.3, 0.5, 1.0, 1.0]), "nhosts": n,
         "reg_order": reg, "random_order": rng.random() < 0.3,
         "curve": rng.choice([5.0, 5.0, 1.0, 0.3, 20.0]),
+        "ipv6": rng.random() < 0.25,
     }
 
 
